@@ -95,6 +95,7 @@ impl<T: Qcow2IoOps> Qcow2Dev<T> {
             return Ok(());
         }
 
+        let version = self.header.read().await.version();
         let l2_handle = self.get_l2_slice(&split).await?;
         let mut l2_table = l2_handle.value().write().await;
 
@@ -112,9 +113,23 @@ impl<T: Qcow2IoOps> Qcow2Dev<T> {
             return Ok(());
         };
 
-        // Clear the L2 entry to all zeros (unallocated state, reads-as-zero).
+        // Clear the L2 entry. Without a backing image the all-zero entry
+        // (unallocated) reads as zero. With a backing image an unallocated
+        // cluster would expose the backing data again, so the entry keeps the
+        // zero flag; version 2 images have no zero flag: there the cluster
+        // stays allocated and only its content is zeroed.
         let idx = split.l2_slice_index(info);
-        l2_table.set(idx, L2Entry(0));
+        let cleared = if !info.has_back_file() {
+            L2Entry(0)
+        } else if version >= 3 {
+            L2Entry(1)
+        } else {
+            let punch_len = host_count * info.cluster_size();
+            return self
+                .call_fallocate(host_cluster, punch_len, Qcow2OpsFlags::FALLOCATE_ZERO_RANGE)
+                .await;
+        };
+        l2_table.set(idx, cleared);
         l2_handle.set_dirty(true);
         self.mark_need_flush(true);
         drop(l2_table);
